@@ -11,6 +11,7 @@ CONSTANTS
   InitAttG = {"s1", "s5"}
   InitOnMe = {}
   MeSessions = {"s4"}
+  SubSessions = {"s1", "s2", "s3"}
   LeaveSessions = {"s1", "s2"}
   DiscSessions = {"s4"}
   PubSessions = {}
